@@ -35,6 +35,18 @@ let eval (op : string) (args : string list) : string * string =
   | "inew" -> same (oz (int_new_from_big (z 0)))
   | "t2p" -> same (oz (tokens_to_power (z 0)))
   | "p2t" -> same (oz (tokens_from_power (z 0)))
+  | "iaddraw" -> same (oz (int_add (z 0) (z 1)))
+  | "isubraw" -> same (oz (int_sub (z 0) (z 1)))
+  | "imulraw" -> same (oz (int_mul (z 0) (z 1)))
+  | "iquoraw" -> same (oz (int_quo (z 0) (z 1)))
+  | "imodraw" -> same (oz (int_mod (z 0) (z 1)))
+  | "igt" -> same (b2s (Z.ltb (z 1) (z 0)))
+  | "igte" -> same (b2s (Z.leb (z 1) (z 0)))
+  | "ilt" -> same (b2s (Z.ltb (z 0) (z 1)))
+  | "ilte" -> same (b2s (Z.leb (z 0) (z 1)))
+  | "ieq" -> same (b2s (Z.eqb (z 0) (z 1)))
+  | "isign" -> same (if z 0 = Z0 then "0" else if Z.ltb (z 0) Z0 then "-1" else "1")
+  | "alias" -> same ("0,1,0,1,0,1000000000000000000,1,7000000000000000000,0")
   | "ijson" -> same (oe (int_unmarshal (z 0)))
   | "uadd" -> same (oz (uint_add (z 0) (z 1)))
   | "usub" -> same (oz (uint_sub (z 0) (z 1)))
